@@ -55,6 +55,9 @@ var props = map[string]propCfg{
 	"C13": {Level: "fault_enumeration",
 		Quick:    tierCfg{Checks: 1600, Shards: 16, Guard: 10 * time.Minute},
 		Thorough: tierCfg{Checks: 32000, Shards: 16, Guard: 90 * time.Minute}},
+	"C14": {Level: "exploration",
+		Quick:    tierCfg{Checks: 4800, Shards: 16, Guard: 10 * time.Minute},
+		Thorough: tierCfg{Checks: 160000, Shards: 16, Guard: 90 * time.Minute}},
 	"C15": {Level: "exploration", DeathIsViolation: true,
 		Quick:    tierCfg{Checks: 96000, Shards: 16, Guard: 10 * time.Minute},
 		Thorough: tierCfg{Checks: 1600000, Shards: 16, Guard: 90 * time.Minute, Race: true}},
